@@ -1,7 +1,5 @@
 //! Step obligations for `handle_data`: one structurally valid datagram of a
 //! fixed kind and shape, every field symbolic, on an arbitrary Inv-state.
-use alloc::vec::Vec;
-
 use super::kit::*;
 use super::ops_api::{check_death, check_gossip_sends, spec_apply};
 use super::oracle::*;
@@ -34,7 +32,10 @@ pub struct Dgram {
     pub n: u8,
     pub update: Option<Rec>,
     pub item: Option<[u8; 3]>,
-    pub bytes: Vec<u8>,
+    /// wire bytes: a fixed array + concrete length (a `Vec` hides the length from
+    /// CBMC's constant propagation and every length check becomes symbolic)
+    pub bytes: [u8; 24],
+    pub len: usize,
 }
 
 pub fn arb_dgram(s: &mut impl Src, tag: u8, tail: Tail) -> Dgram {
@@ -43,8 +44,8 @@ pub fn arb_dgram(s: &mut impl Src, tag: u8, tail: Tail) -> Dgram {
     let dst = Id::arb(s);
     let arg = Id::arb(s);
     let n = s.u8();
-    let mut bytes: Vec<u8> = Vec::with_capacity(PKT);
-    bytes.extend_from_slice(&[
+    let mut bytes = [0u8; 24];
+    let hdr = [
         src.addr,
         src.gen,
         (src_inc >> 8) as u8,
@@ -55,26 +56,33 @@ pub fn arb_dgram(s: &mut impl Src, tag: u8, tail: Tail) -> Dgram {
         arg.addr,
         arg.gen,
         n,
-    ]);
+    ];
+    bytes[..HDR].copy_from_slice(&hdr);
+    let mut len = HDR;
     let mut update = None;
     let mut item = None;
     match tail {
         Tail::None => {}
-        Tail::Zero => bytes.extend_from_slice(&[0, 0]),
+        Tail::Zero => {
+            len = HDR + 2;
+        }
         Tail::One => {
             let m = arb_member(s);
             let r: Rec = (*m.id(), m.incarnation(), m.state());
-            bytes.extend_from_slice(&[0, 1, r.0.addr, r.0.gen, (r.1 >> 8) as u8, r.1 as u8, state_tag(r.2)]);
+            bytes[HDR..HDR + 7].copy_from_slice(&[0, 1, r.0.addr, r.0.gen, (r.1 >> 8) as u8, r.1 as u8, state_tag(r.2)]);
+            len = HDR + 7;
             update = Some(r);
         }
         Tail::Custom => {
             let it = [s.u8(), s.u8(), s.u8()];
-            bytes.extend_from_slice(&[0, 0, 0, 3, it[0], it[1], it[2]]);
+            bytes[HDR..HDR + 7].copy_from_slice(&[0, 0, 0, 3, it[0], it[1], it[2]]);
+            len = HDR + 7;
             item = Some(it);
         }
         Tail::CustomOnly => {
             let it = [s.u8(), s.u8(), s.u8()];
-            bytes.extend_from_slice(&[0, 3, it[0], it[1], it[2]]);
+            bytes[HDR..HDR + 5].copy_from_slice(&[0, 3, it[0], it[1], it[2]]);
+            len = HDR + 5;
             item = Some(it);
         }
     }
@@ -88,6 +96,7 @@ pub fn arb_dgram(s: &mut impl Src, tag: u8, tail: Tail) -> Dgram {
         update,
         item,
         bytes,
+        len,
     }
 }
 
@@ -115,7 +124,7 @@ fn d_step<S: Src>(s: &mut S, tag: u8, tail: Tail, sh: Shape) {
         return;
     }
     let mut rt = LogRt::new();
-    let r = f.handle_data(&d.bytes, &mut rt);
+    let r = f.handle_data(&d.bytes[..d.len], &mut rt);
     let post = snap(&f);
 
     // ---- rejected before processing / not addressed to us (C17, C09) ---------
@@ -321,8 +330,8 @@ fn d_step<S: Src>(s: &mut S, tag: u8, tail: Tail, sh: Shape) {
     vcover!(tag != 5 || (steady && from_helper && !cur_n), "forwarded ack with a stale number");
     vcover!(tag != 5 || (steady && !from_helper && cur_n), "forwarded ack from an unasked member");
     vcover!(tag != 2 || (connected && d.arg == me), "relay request naming ourselves");
-    vcover!(tag != 10 || (post.identity != me), "TurnUndead leads to renewal");
-    vcover!(tag != 10 || (post.identity == me && post.conn == ConnectionState::Undead && pre.conn != ConnectionState::Undead), "TurnUndead leads to Defunct");
+    vcover!(tag != 10 || me.renew != RenewMode::Next || (post.identity != me), "TurnUndead leads to renewal");
+    vcover!(tag != 10 || me.renew == RenewMode::Next || (post.identity == me && post.conn == ConnectionState::Undead && pre.conn != ConnectionState::Undead), "TurnUndead leads to Defunct");
 
     match msg {
         Message::Ping(n) => {
@@ -451,12 +460,29 @@ dh!(d_fwd_ack, 5, Tail::Zero, {
     x.n_ind = 1;
     x
 });
-dh!(d_announce, 6, Tail::None, sh(1));
+dh!(d_announce, 6, Tail::None, {
+    let mut x = sh(1);
+    x.pkt = 17;
+    x
+});
+dh!(d_announce_32, 6, Tail::None, sh(1));
 dh!(d_announce_k2, 6, Tail::None, sh(2));
 dh!(d_feed, 7, Tail::Zero, sh(2));
 dh!(d_gossip, 8, Tail::Zero, sh(2));
 dh!(d_broadcast, 9, Tail::None, sh(2));
 dh!(d_turn_undead, 10, Tail::None, sh(1));
+// non-renewable identity (the case in which two members can bounce TurnUndead)
+dh!(d_turn_undead_never, 10, Tail::None, {
+    let mut x = sh(1);
+    x.renew = Some(RenewMode::Never);
+    x
+});
+dh!(d_turn_undead_next, 10, Tail::None, {
+    let mut x = sh(1);
+    x.renew = Some(RenewMode::Next);
+    x.fanout = Some(1);
+    x
+});
 dh!(d_turn_undead_k2, 10, Tail::None, sh(2));
 // one piggybacked update
 dh!(d_ping_upd, 0, Tail::One, sh(1));
